@@ -39,7 +39,9 @@ func init() {
 	// crash sweeps run tens of worlds per case
 	bud("C08", budget{ffRuns: 60, runs: 240, wallSec: 40, chunk: 5}, budget{ffRuns: 5000, runs: 45000, wallSec: 780, chunk: 25, selftest: 20})
 	bud("C14", budget{ffRuns: 2000, runs: 2000, wallSec: 60, chunk: 50}, budget{ffRuns: 60000, runs: 240000, wallSec: 780, chunk: 100, selftest: 20})
-	for _, id := range []string{"C01", "C02", "C03", "C05", "C06", "C07", "C09", "C10", "C11", "C12", "C15", "C16", "C17", "C18", "C19"} {
+	// five modes and, in the runtime mode, some forty parameterised node chains: more cases per tier
+	bud("C05", budget{ffRuns: 1200, runs: 2800, wallSec: 60, chunk: 50}, budget{ffRuns: 200000, runs: 1800000, wallSec: 780, chunk: 500, selftest: 40})
+	for _, id := range []string{"C01", "C02", "C03", "C06", "C07", "C09", "C10", "C11", "C12", "C15", "C16", "C17", "C18", "C19"} {
 		def(id)
 	}
 }
